@@ -894,7 +894,8 @@ impl SwiftField for Field50OrderingCustomerNCF {
         Self: Sized,
     {
         match variant {
-            None => {
+            // the message parser passes an empty letter for a field written without option
+            None | Some("") => {
                 let field = Field50NoOption::parse(value)?;
                 Ok(Field50OrderingCustomerNCF::NoOption(field))
             }
